@@ -582,7 +582,8 @@ fn run_shard(args: &Args, shard: u64, nshards: u64) {
         fix_metadata(&mut h);
         std::fs::write(args.out.join("current.txt"), hist_json(&h)).ok();
         let (o, a) = run_history(&h, &mut rep, &mut extra);
-        if o.len() < 60000 { corr.case(&o, &a); }
+        // a history made only of CompressStreaming / has_more / is_finished calls has no model line
+        if o != "ffi S -" && o.len() < 60000 { corr.case(&o, &a); } else if o == "ffi S -" { rep.count("histories_without_model_line"); }
     }
     for (o, a) in extra.drain(..) { corr.case(&o, &a); }
     if c20 { std::fs::write(args.out.join("current.txt"), "").ok(); corr.finish(); rep.write(&args.out); return; }
